@@ -14,7 +14,7 @@ def register(check, na):
           "Path-set shape of Arc::make_mut, Arc::make_unique, OffsetArc::make_mut: sole-owner path has no clone/alloc/count event; shared path is test -> one Clone::clone -> one fresh block -> release of one old owner -> mutable borrow from the new pointer; clone confined to the not-unique branch; OffsetArc read-out/park/write-back order and no change when Clone unwinds. Decides where the write can land (solely owned or fresh); the run-time invisibility through other handles follows with C02/C03.",
           TB, "MIR path-set shape and event-order rules on the copy-on-write functions", "DESIGN.md 4/C08")
     check("C09", "other",
-          "Path-set shape of try_unique, TryFrom, try_unwrap, into_inner, unwrap_or_clone: sole-owner path moves the payload field out with no destructor call and frees the block once as typed sole owner; decline path has zero events and returns the parameter itself (unwrap_or_clone: one clone then one release). The race clause reduces to C02/C03.",
+          "Path-set shape of try_unique, TryFrom, try_unwrap, into_inner, unwrap_or_clone: sole-owner path moves the payload field out with no destructor call and frees the block once as typed sole owner; decline path has zero events and returns the parameter itself (unwrap_or_clone: one clone then one release); every way these functions come to hold a UniqueArc sits behind the Acquire `count == 1` gate (a Relaxed observation does not count). The race clause reduces to C02/C03.",
           TB, "MIR path-set shape, move/def-use rules on the unwrap family", "DESIGN.md 4/C09")
 
 
@@ -26,13 +26,13 @@ def _more(check, na):
           "Every producer of exclusive access (payload `&mut` through a handle, `&mut Arc`->`&mut UniqueArc` cast, UniqueArc construction; unsafe constructors at their call sites) is, on every CFG path from entry, behind the true edge of the `Acquire load(count) == 1` gate on the same handle, behind an assignment of a fresh handle, or typed sole owner; decline paths are event-free and return the same value; deprecated writers go through the panicking check; payload borrows through value-pointer handles (OffsetArc/ArcBorrow) are producers too; no use of a block after a non-final release; count word addressed only as the typed header field.",
           TB + " Release/acquire lemma; C04 (count = owners). One frozen exemption listed in the evidence.", "gate-dominance (cut-set reachability) over MIR + role inference of the gate", "DESIGN.md 4/C03")
     check("C16", "other",
-          "One increment site adding the constant 1; the value it returns is compared with a rustc-evaluated constant equal to isize::MAX (> or equivalent >=); every path through the tripped edge neither returns nor unwinds; the handle is built only behind the other edge; the abort callee is std::process::abort (std) or a local routine whose computed summary has no returning and no unwinding path (no_std); six clone entry points increment exactly once. Both std and no_std configurations.",
+          "One increment site adding the constant 1; the value it returns is compared with a rustc-evaluated constant equal to isize::MAX (> or equivalent >=), whose defining expression also evaluates to isize::MAX for 16- and 32-bit targets; every path through the tripped edge neither returns nor unwinds; the handle is built only behind the other edge; the abort callee is std::process::abort (std) or a local routine whose computed summary has no returning and no unwinding path (no_std); six clone entry points increment exactly once. Both std and no_std configurations.",
           TB + " Panic-while-panicking aborts.", "guard-after-increment dataflow, divergence summaries, const evaluation by rustc", "DESIGN.md 4/C16")
 
 
 def _more2(check, na):
     check("C14", "other",
-          "Where the answer comes from, decided on the type-resolved call graph: every comparison/hash/format method on a handle or public header-slice type reaches the same trait method on the payload, never on the pointer, never on a part of the value, never another method; the single pointer-identity shortcut has the licensed shape; Borrow/AsRef return the Deref target; eq, ordering and hash of each payload struct read the same leaf fields at the same instantiation. Two genuine defects found by these rules were repaired in /repo (fix: commits, see known_findings.json). Concrete results on values are not decided.",
+          "Where the answer comes from, decided on the type-resolved call graph: every comparison/hash/format method on a handle or public header-slice type reaches the same trait method on the payload, never on the pointer, never on a part of the value, never another method, and on every returning path (no early return that skips the delegate); the single pointer-identity shortcut has the licensed shape; Borrow/AsRef return the Deref target; eq, ordering and hash of each payload struct read the same leaf fields at the same instantiation. Two genuine defects found by these rules were repaired in /repo (fix: commits, see known_findings.json). Concrete results on values are not decided.",
           TB + " Parametricity of one-call delegation.", "call-graph delegation analysis + comparison-footprint agreement", "DESIGN.md 4/C14, 6")
 
 
@@ -44,7 +44,7 @@ def _more3(check, na):
           "rustc is the oracle: impl-table exactness of the twelve manual Send/Sync impls (for all payload types at once) and a witness corpus compiled against an rlib of the current tree in each configuration - generic positives, generic negatives with exactly one bound missing (E0277 on the marked line), witness payloads of each auto-trait class, every borrow-escape and aliasing route, drop-check per handle kind - each negative witness with exact (line, code) expectations and a compiling twin; plus two signature rules over the type-checked crate: no safe function's output carries a lifetime that none of its inputs carries or outlives (R-LIFETIME), and owning handles own their #[may_dangle] parameters through a marker in an owning position (R-PHANTOM). obligations = expected rejections + twins + accepts + impl facts, all discharged by rustc.",
           "Trusted base: rustc nightly's type, borrow and drop checkers; witnesses cover the routes listed in the property (a route nobody wrote down is covered only by R-LIFETIME/R-AUTO/R-PHANTOM).", "compile-pass / compile-fail witnesses with twins + impl-predicate exactness + signature-region lint over the type-checked crate", "DESIGN.md 4/C13, 2/E-B")
     check("C17", "other",
-          "Linear-use shape of the four serde methods from MIR def-use: one user call on the handle's whole Deref target, serializer/deserializer moved into it exactly once, result returned unchanged (serialize) or consumed only by Result::map with a fresh-sole-owner constructor (deserialize); nothing allocated before the payload's deserializer returns; path set {nothing, one fresh sole owner}; any further method of these impls (e.g. deserialize_in_place) never writes into a possibly shared value. By parametricity the serializer sees the payload's call sequence.",
+          "Linear-use shape of the four serde methods from MIR def-use: one user call on the handle's whole Deref target, serializer/deserializer moved into it exactly once, result returned unchanged (serialize) or consumed only by Result::map with a fresh-sole-owner constructor (deserialize); nothing allocated before the payload's deserializer returns; path set {nothing, one fresh sole owner}; any further method of these impls (e.g. deserialize_in_place) never writes into a possibly shared value; the impl headers are bounded by exactly `T: Serialize` / `T: Deserialize<'de>`. By parametricity the serializer sees the payload's call sequence.",
           TB + " Result::map semantics; parametricity.", "def-use linearity and path-set rules on the serde impls", "DESIGN.md 4/C17")
 
 
@@ -65,7 +65,7 @@ def _more5(check, na):
           "The length invariant is carried by a type; the check shows nothing forges or disturbs it: typestate-introducing casts only in unsafe constructors whose safe call sites are dominated by `stored length == slice.len()` on the converted value; mutable access into the protected payload ends in the user header or the slice only, private field, no DerefMut; the single re-fattening helper reads the length from the same allocation and all users reach it; thin<->fat conversions keep the block pointer and the count; the refusing path of into_thin releases the Arc; with_arc_mut's guard (C07).",
           TB, "typestate-by-type rules: cast/aggregate enumeration, dominance, projection whitelist, pointer normal forms", "DESIGN.md 4/C10")
     check("C15", "other",
-          "Uninitialised constructors return payload types whose element parameters all sit under MaybeUninit (so modelled drop glue runs no element destructor whatever was written), the header is written before the handle exists, the five assume_init functions are event-free casts around the same block pointer between types equal up to MaybeUninit erasure, no safe function calls them, and the deprecated writers go through the panicking uniqueness check. Whether clients initialise every slot is their unsafe obligation.",
+          "Uninitialised constructors return payload types whose element parameters all sit under MaybeUninit (so modelled drop glue runs no element destructor whatever was written), the header is written before the handle exists, a caller-supplied value parked in ManuallyDrop is handed over before anything can unwind, the five assume_init functions are event-free casts around the same block pointer between types equal up to MaybeUninit erasure, no safe function calls them, and the deprecated writers go through the panicking uniqueness check. Whether clients initialise every slot is their unsafe obligation.",
           TB + " MaybeUninit has no drop glue (language guarantee).", "type walk of resolved signatures + balance engine + pointer normal forms", "DESIGN.md 4/C15")
 
 
